@@ -1226,6 +1226,33 @@ theorem C12_timer_transparent (c : Cfg) (R : Req) (stop₀ : Bool) :
   · rw [hp]; simp [← List.append_assoc]
   · rw [hp]; simp [← List.append_assoc, hpp]
 
+/-- **C12.16b** What the `Timer` prints (timer.py:39-62, `already_notified`): nothing in a silent run; otherwise at most ONE
+"Training terminated at epoch e[, batch b]" line — for the first `on_batch_end` / `on_epoch_end` (before train-end) whose
+dispatch leaves the flag set (`rets` = the flag after the user callbacks of each event; by `C12_sticky` the OR of the requests
+so far), naming that batch / epoch — followed by the elapsed-time line of `calculate_elapsed_time`, which is always last.
+A stop first requested at train-end is not announced. -/
+theorem C12_timer_prints (c : Cfg) (R : Req) :
+    prints (fit (c.withTimer true) R true).1 = [] ∧
+    ∃ pre, rets (fit (c.withTimer true) R false).1 = pre ++ [(.trainEnd, (fit (c.withTimer true) R false).2.stop)] ∧
+      prints (fit (c.withTimer true) R false).1 = firstMsg pre ++ [.total] ∧
+      (firstMsg pre).length ≤ 1 ∧ (pre.any endSet = false → firstMsg pre = []) := by
+  refine ⟨by rw [fit_stopped]; rfl, ?_⟩
+  obtain ⟨pre, h1, h2⟩ := fit_prints c R
+  refine ⟨pre, h1, h2, ?_, fun h => firstMsg_of_not_any h⟩
+  unfold firstMsg
+  split
+  · rename_i x _
+    cases x.1 <;> simp [timerLine]
+  · simp
+
+/-- callback 0 asks for a stop at the START of batch (1,1): the Timer announces it at the END of that batch, once, and the
+epoch-end that follows (flag still set) is not announced again -/
+example :
+    let c : Cfg := { start := 1, epochs := 2, numBatches := 3, cbs := [0], timer := false, hasSched := true }
+    let R : Req := { cb := fun i ev => i == 0 && ev == Event.batchStart 1 1, mid := fun _ _ => false }
+    firstMsg ((rets (fit (c.withTimer true) R false).1).dropLast) = [.terminatedBatch 1 1] ∧
+      ((rets (fit (c.withTimer true) R false).1).filter endSet).length = 2 := by decide
+
 /-- the hypotheses are satisfiable and the statement is not empty: a stopped three-batch run with the Timer prints two lines -/
 example :
     let c : Cfg := { start := 1, epochs := 2, numBatches := 3, cbs := [0], timer := false, hasSched := true }
